@@ -33,6 +33,9 @@ Ranges6 == { <<NoEnd, NoEnd>>, <<NoEnd, 8>>, <<4, NoEnd>>, <<2, 10>>, <<6, 12>>,
 Ranges6s == { <<NoEnd, NoEnd>>, <<NoEnd, 8>>, <<4, NoEnd>>, <<6, 12>> }
 Ranges6t == Ranges6 \cup { <<5, NoEnd>>, <<3, 11>> }
 
+\* boxes on NF = 6 grids with levels 1..6: around a tent top, a wide low band, one that hits nothing
+Boxes6 == { <<3, 5, 5, 7>>, <<5, 9, 3, 9>>, <<1, 13, 1, 3>>, <<7, 11, 9, 11>>, <<3, 7, 3, 5>> }
+NoBoxes == {}
 NSetA == { <<1, 1>>, <<2, 1>> }
 NSetB == { <<1, 1>>, <<2, 1>>, <<3, 2>> }
 MaxItsA == {1, 50}
@@ -74,6 +77,8 @@ NextC06 ==
     \/ \E r \in Ranges, kw \in BOOLEAN, n \in NSet, mi \in MaxIts : Fdwra(r, kw, n, mi)
     \/ \E r \in Ranges : UpdateRange(r, FALSE)
     \/ \E S \in TdMasks : TdReject(S)
+\* interactive manual rejection only (from every initial assignment): the sessions an analyst can chain
+NextManualOnly == \E r \in Ranges, b \in Boxes : ManualSession(r, b)
 SThrHalf == <<1, 2>>      \* grid step 0.02 Hz: 0.01 Hz = half a step
 SThrQuarter == <<1, 4>>   \* grid step 0.04 Hz
 SThrOne == <<1, 1>>       \* grid step 0.01 Hz
